@@ -84,10 +84,10 @@ def borrow_obligations(prog, chk, rule, units=None):
 
 
 def run(prog, chk):
-    builder_close_table(prog, chk)
-    parallel_lists_table(prog, chk)
-    level_update_table(prog, chk)
-    append_chain_table(prog, chk)
+    chk.defer(builder_close_table, prog, chk)
+    chk.defer(parallel_lists_table, prog, chk)
+    chk.defer(level_update_table, prog, chk)
+    chk.defer(append_chain_table, prog, chk)
     chk.explanation = (
         "(R4) for every function of the 40 units and every pointer local that receives an object from a producer (derived from the callee's "
         "own body: its out-parameter only ever carries a fresh allocation, a new reference or another producer's result), an allocator or "
